@@ -14,8 +14,10 @@
    Abstract interface Iface(d) (DESIGN 3.3):
      [kind, repo, inputs : seq of [n, required, hasDefault, type], secrets : seq of [n, required],
       outputs, skipInputs, skipOutputs]
-   Call site: [with : seq of names, valueTypes : seq of value kinds (parallel to with),
-               secrets : seq of names, inherit, outputRefs : seq of names]
+   Call site: [uses : form of the `uses:` text of a local action, with : seq of names,
+               valueTypes : seq of value kinds (parallel to with), secrets : seq of names, inherit,
+               outputRefs : seq of names]
+   d.loc is the directory of a local action: "sub" (./.github/actions/x) or "root" (the repository root).
    A diagnostic is [class, name].
 
    Declarative layer : Expected(iface, call) - the property C14 as stated.
@@ -33,7 +35,9 @@ CONSTANTS Kinds,        \* subset of {"action", "workflow", "popular"}
           MaxInputs, Reqs, Defs, Types,      \* input declarations to enumerate (Types: for workflows)
           DeclSpells, CallSpells,            \* spelling variants: subset of {"lower", "upper", "mixed"}
           MaxSecrets, SecReqs, MaxOutputs,
-          ValueKinds,   \* value kinds passed to inputs of reusable workflows
+          ValueKinds,   \* value kinds passed to inputs of reusable workflows (names, see LitKinds / ExprKinds)
+          Locs,         \* directories of a local action to try: subset of {"sub", "root"}
+          UsesForms,    \* spellings of `uses:` of a local action to try (see UsesForm)
           Extras,       \* BOOLEAN: call sites may use one undeclared input / secret / output name
           Inherit,      \* BOOLEAN: `secrets: inherit` is tried
           Skips         \* BOOLEAN: skip_inputs / skip_outputs are tried (bundled table only)
@@ -83,14 +87,35 @@ Iface(d) ==
    secrets |-> [i \in DOMAIN d.secrets |-> [n |-> d.secrets[i].n, required |-> d.secrets[i].req = "true"]],
    outputs |-> d.outputs, skipInputs |-> d.skipInputs, skipOutputs |-> d.skipOutputs]
 
-\* static type of a value kind (literal: YAML plain scalar; expr: one whole-scalar placeholder)
+(* Values given to inputs.  A literal value kind is named "<style>:<class>": the YAML scalar style
+   (plain, single-quoted, double-quoted) and the class of its text; the other kinds are one
+   whole-scalar placeholder (expr-<type>) and a placeholder embedded in text (embed).
+   The checker documents that the TEXT of the scalar is what is passed to the called workflow, so the
+   scalar style does not take part in the classification: null / true / false / a decimal number are
+   null, bool, number - quoted or not; other text is a string.
+   The property does not pin how the BORDERLINE texts are classified (~, TRUE, 0x1F, the empty scalar:
+   a maintainer may make ~ null or 0x1F a number without breaking it): for a value of such a class the
+   type-mismatch verdict is UNSPECIFIED - it is never part of Expected and is removed from the real
+   output before judging (Unspecified below); only the operational layer predicts it (model drift). *)
+LitStyles == {"plain", "single", "double"}
+LitClasses == {"true", "false", "null", "tilde", "int", "float", "hex", "text", "empty", "TRUE"}
+LitKinds == {[name |-> st \o ":" \o cl, style |-> st, cls |-> cl] : st \in LitStyles, cl \in LitClasses}
+ExprKinds == {"expr-str", "expr-num", "expr-bool", "expr-null", "expr-obj", "expr-any", "embed"}
+BorderClasses == {"tilde", "hex", "empty", "TRUE"}
+LitNames == {k.name : k \in LitKinds}
+LitOf(vk) == CHOOSE k \in LitKinds : k.name = vk
+ClassType(cl) == CASE cl \in {"true", "false"} -> "bool" [] cl = "null" -> "null"
+                   [] cl \in {"int", "float"} -> "number" [] OTHER -> "string"
+Borderline(vk) == vk \in {k.name : k \in {x \in LitKinds : x.cls \in BorderClasses}}
+\* static type of a value kind (for borderline literals: what the checker does today, not demanded)
 TypeOf(vk) ==
-  CASE vk \in {"lit-str", "expr-str", "embed"} -> "string"
-    [] vk \in {"lit-num", "expr-num"} -> "number"
-    [] vk \in {"lit-bool", "expr-bool"} -> "bool"
-    [] vk \in {"lit-null", "expr-null"} -> "null"
-    [] vk = "expr-obj" -> "object"
-    [] vk = "expr-any" -> "any"
+  IF vk \in LitNames THEN ClassType(LitOf(vk).cls)
+  ELSE CASE vk \in {"expr-str", "embed"} -> "string"
+         [] vk = "expr-num" -> "number"
+         [] vk = "expr-bool" -> "bool"
+         [] vk = "expr-null" -> "null"
+         [] vk = "expr-obj" -> "object"
+         [] vk = "expr-any" -> "any"
 \* docs/checks.md "Check inputs and outputs of reusable workflow call": everything converts to a
 \* boolean, numbers convert to strings, nothing else converts; a statically unknown value is accepted
 AssignOK(declType, vt) ==
@@ -125,8 +150,16 @@ Expected(f, c) ==
                   ELSE {D("type-mismatch", f.inputs[i].n.sp) :
                           i \in {j \in DOMAIN f.inputs :
                                    \E k \in DOMAIN c.with : /\ c.with[k].id = f.inputs[j].n.id
+                                                            /\ ~Borderline(c.valueTypes[k])
                                                             /\ ~AssignOK(f.inputs[j].type, TypeOf(c.valueTypes[k]))}}
   IN undefIn \cup missIn \cup undefSec \cup missSec \cup undefOut \cup mismatch
+
+\* diagnostics whose presence the property leaves open: type-mismatch of an input that is given a
+\* borderline literal
+Unspecified(f, c) ==
+  IF f.kind # "workflow" THEN {}
+  ELSE {D("type-mismatch", f.inputs[j].n.sp) :
+          j \in {i \in DOMAIN f.inputs : \E k \in DOMAIN c.with : c.with[k].id = f.inputs[i].n.id /\ Borderline(c.valueTypes[k])}}
 
 ----------------------------------------------------------------------------
 (* Operational layer: derivations of "required" *)
@@ -212,7 +245,24 @@ OpStepOutputs(meta, repo, c) ==
 \* rule_action.go:374 checkRepoAction for a spec found in PopularActions
 OpRepoAction(meta, repo, c) ==
   (IF meta.skipInputs THEN {} ELSE OpCheckAction(meta, c)) \cup OpStepOutputs(meta, repo, c)
-OpLocalAction(meta, c) == OpCheckAction(meta, c) \cup OpStepOutputs(meta, "", c)
+(* `uses:` of a local action.  The facts about each text that the code relies on:
+     dotSlash : strings.HasPrefix(text, "./")  - rule_action.go:331 (VisitStep) and rule_expression.go:327
+                (getActionOutputsType) both recognise a local action by this test on the unmodified text
+     dir      : filepath.Join(root, text) cleans the path lexically (action_metadata.go:238)
+   Every form denotes the directory of the action, so every form must give the same verdicts. *)
+UsesForm == [plain    |-> [text |-> "./.github/actions/x",            dotSlash |-> TRUE, dir |-> "sub"],
+             slash    |-> [text |-> "./.github/actions/x/",           dotSlash |-> TRUE, dir |-> "sub"],
+             slashdot |-> [text |-> "./.github/actions/x/.",          dotSlash |-> TRUE, dir |-> "sub"],
+             dotdot   |-> [text |-> "./.github/actions/../actions/x", dotSlash |-> TRUE, dir |-> "sub"],
+             root     |-> [text |-> "./",                             dotSlash |-> TRUE, dir |-> "root"],
+             rootdot  |-> [text |-> "./.",                            dotSlash |-> TRUE, dir |-> "root"]]
+FormsFor(loc) == {f \in DOMAIN UsesForm : UsesForm[f].dir = loc}
+\* rule_action.go:331/561 checkLocalAction and rule_expression.go:327: the metadata is looked up
+\* independently by the two rules, each time by prefix test + FindMetadata(text)
+OpLocalAction(meta, loc, c) ==
+  LET f == UsesForm[c.uses]
+      found == f.dotSlash /\ f.dir = loc      \* action.yml exists in the directory the text resolves to
+  IN (IF found THEN OpCheckAction(meta, c) ELSE {}) \cup (IF found THEN OpStepOutputs(meta, "", c) ELSE {})
 
 \* rule_workflow_call.go:75 checkWorkflowCallUsesLocal
 OpWorkflowCall(m, c) ==
@@ -228,23 +278,24 @@ OpWorkflowCall(m, c) ==
                            id \in {x \in callSec : x \notin DOMAIN m.secrets}}
   IN ins \cup secs
 
-\* rule_expression.go:510 checkWorkflowCall: how the value of one `with:` entry is typed
-VK == [x \in {"lit-str", "lit-num", "lit-bool", "lit-null", "expr-str", "expr-num", "expr-bool", "expr-null",
-              "expr-obj", "expr-any", "embed"} |->
-         CASE x = "lit-str" -> [places |-> 0, lit |-> "other", assigned |-> FALSE, ety |-> "-"]
-           [] x = "lit-num" -> [places |-> 0, lit |-> "float", assigned |-> FALSE, ety |-> "-"]
-           [] x = "lit-bool" -> [places |-> 0, lit |-> "truefalse", assigned |-> FALSE, ety |-> "-"]
-           [] x = "lit-null" -> [places |-> 0, lit |-> "null", assigned |-> FALSE, ety |-> "-"]
-           [] x = "expr-str" -> [places |-> 1, lit |-> "-", assigned |-> TRUE, ety |-> "string"]
-           [] x = "expr-num" -> [places |-> 1, lit |-> "-", assigned |-> TRUE, ety |-> "number"]
-           [] x = "expr-bool" -> [places |-> 1, lit |-> "-", assigned |-> TRUE, ety |-> "bool"]
-           [] x = "expr-null" -> [places |-> 1, lit |-> "-", assigned |-> TRUE, ety |-> "null"]
-           [] x = "expr-obj" -> [places |-> 1, lit |-> "-", assigned |-> TRUE, ety |-> "object"]
-           [] x = "expr-any" -> [places |-> 1, lit |-> "-", assigned |-> TRUE, ety |-> "any"]
-           [] x = "embed" -> [places |-> 1, lit |-> "-", assigned |-> FALSE, ety |-> "number"]]
+\* rule_expression.go:510 checkWorkflowCall: how the value of one `with:` entry is typed.
+\* Facts about the text of a literal class, as the Go code sees it (v = strings.TrimSpace(Value)):
+\*   v == "null"; v == "true" || v == "false"; strconv.ParseFloat(v, 64) succeeds
+\* ("~", "TRUE", "" are none of these; "0x1F" is rejected by ParseFloat: a hexadecimal mantissa needs a
+\* p exponent).  String.Quoted is not consulted: the scalar style plays no role.
+LitFacts(cl) == [isNull |-> cl = "null", isTrueFalse |-> cl \in {"true", "false"}, parseFloatOK |-> cl \in {"int", "float"}]
+VK(x) ==
+  IF x \in LitNames THEN [places |-> 0, facts |-> LitFacts(LitOf(x).cls), assigned |-> FALSE, ety |-> "-"]
+  ELSE [places |-> 1, facts |-> LitFacts("text"), assigned |-> x # "embed",
+        ety |-> CASE x = "expr-str" -> "string" [] x = "expr-num" -> "number" [] x = "expr-bool" -> "bool"
+                  [] x = "expr-null" -> "null" [] x = "expr-obj" -> "object" [] x = "expr-any" -> "any"
+                  [] x = "embed" -> "number"]
 OpValueType(v) ==
   IF v.places = 0
-    THEN CASE v.lit = "null" -> "null" [] v.lit = "truefalse" -> "bool" [] v.lit = "float" -> "number" [] OTHER -> "string"
+    THEN IF v.facts.isNull THEN "null"
+         ELSE IF v.facts.isTrueFalse THEN "bool"
+         ELSE IF v.facts.parseFloatOK THEN "number"
+         ELSE "string"
   ELSE IF v.places = 1 /\ v.assigned THEN v.ety
   ELSE "string"
 \* expr_type.go Assignable of StringType / NumberType / BoolType / AnyType
@@ -257,7 +308,7 @@ OpTypedInputs(m, c) ==
   {D("type-mismatch", m.inputs[c.with[k].id].name) :
      k \in {j \in DOMAIN c.with : /\ c.with[j].id \in DOMAIN m.inputs
                                   /\ m.inputs[c.with[j].id].type # "any"
-                                  /\ ~OpAssignable(m.inputs[c.with[j].id].type, OpValueType(VK[c.valueTypes[j]]))}}
+                                  /\ ~OpAssignable(m.inputs[c.with[j].id].type, OpValueType(VK(c.valueTypes[j])))}}
 \* rule_expression.go:353 getWorkflowCallOutputsType
 OpNeedsOutputs(m, c) ==
   {D("undefined-output", r.id) : r \in {x \in Range(c.outputRefs) : x.id \notin DOMAIN m.outputs}}
@@ -267,7 +318,7 @@ OpWorkflow(m, c) == OpWorkflowCall(m, c) \cup OpTypedInputs(m, c) \cup OpNeedsOu
 PathsOf(kind) == CASE kind = "action" -> {"local"} [] kind = "popular" -> {"table"}
                    [] kind = "workflow" -> {"file", "ast", "file2"}
 Op(path, d, c) ==
-  CASE path = "local" -> OpLocalAction(ActionMeta(d, ReqLocalAction), c)
+  CASE path = "local" -> OpLocalAction(ActionMeta(d, ReqLocalAction), d.loc, c)
     [] path = "table" -> OpRepoAction(ActionMeta(d, ReqBundled), "", c)
     [] path \in {"file", "file2"} -> OpWorkflow(WfMeta(d, ReqWorkflowFile, SecFile), c)
     [] path = "ast" -> OpWorkflow(WfMeta(d, ReqWorkflowAST, SecAST), c)
@@ -299,36 +350,41 @@ KnownDeviation(path, d, c) ==
 VARIABLES d, call, tc
 vars == <<d, call, tc>>
 
-D0(kind) == [kind |-> kind, inputs |-> <<>>, secrets |-> <<>>, outputs |-> <<>>, skipInputs |-> FALSE, skipOutputs |-> FALSE]
-C0 == [with |-> <<>>, valueTypes |-> <<>>, secrets |-> <<>>, inherit |-> FALSE, outputRefs |-> <<>>]
+D0(kind, loc) == [kind |-> kind, loc |-> loc, inputs |-> <<>>, secrets |-> <<>>, outputs |-> <<>>,
+                  skipInputs |-> FALSE, skipOutputs |-> FALSE]
+C0(form) == [uses |-> form, with |-> <<>>, valueTypes |-> <<>>, secrets |-> <<>>, inherit |-> FALSE, outputRefs |-> <<>>]
+NoArgs(c) == c.with = <<>> /\ c.secrets = <<>> /\ ~c.inherit /\ c.outputRefs = <<>>
 
 Vector(dd, c) == ToJson([d |-> dd, iface |-> Iface(dd), call |-> c, exp |-> Expected(Iface(dd), c),
+                         unspec |-> Unspecified(Iface(dd), c),
                          op |-> [p \in PathsOf(dd.kind) |-> Op(p, dd, c)]])
 
-Init == /\ d \in {D0(k) : k \in Kinds}
-        /\ call = C0
+\* the directory and the spelling of `uses:` vary for local actions only
+Init == /\ d \in {D0(k, "sub") : k \in Kinds} \cup {D0("action", l) : l \in IF "action" \in Kinds THEN Locs ELSE {}}
+        /\ call \in IF d.kind = "action" THEN {C0(f) : f \in FormsFor(d.loc) \cap (UsesForms \cup {"plain", "root"})}
+                    ELSE {C0("plain")}
         /\ tc = Vector(d, call)
 
 TypesOf(kind) == IF kind = "workflow" THEN Types ELSE {"none"}
-ValueKindsOf(kind) == IF kind = "workflow" THEN ValueKinds ELSE {"lit-str"}
+ValueKindsOf(kind) == IF kind = "workflow" THEN ValueKinds ELSE {"plain:text"}
 
 AddInput ==
-  /\ call = C0 /\ d.secrets = <<>> /\ d.outputs = <<>>
+  /\ NoArgs(call) /\ d.secrets = <<>> /\ d.outputs = <<>>
   /\ Len(d.inputs) < MaxInputs /\ Len(d.inputs) < Len(InputNames)
   /\ \E r \in Reqs, df \in Defs, ty \in TypesOf(d.kind), sv \in DeclSpells :
        d' = [d EXCEPT !.inputs = Append(@, [n |-> Nm(InputNames[Len(d.inputs) + 1], sv), req |-> r, def |-> df, type |-> ty])]
   /\ call' = call
 AddSecret ==
-  /\ call = C0 /\ d.kind = "workflow" /\ d.outputs = <<>> /\ Len(d.secrets) < MaxSecrets
+  /\ NoArgs(call) /\ d.kind = "workflow" /\ d.outputs = <<>> /\ Len(d.secrets) < MaxSecrets
   /\ \E r \in SecReqs, sv \in DeclSpells :
        d' = [d EXCEPT !.secrets = Append(@, [n |-> Nm(SecretNames[Len(d.secrets) + 1], sv), req |-> r])]
   /\ call' = call
 AddOutput ==
-  /\ call = C0 /\ Len(d.outputs) < MaxOutputs
+  /\ NoArgs(call) /\ Len(d.outputs) < MaxOutputs
   /\ \E sv \in DeclSpells : d' = [d EXCEPT !.outputs = Append(@, Nm(OutputNames[Len(d.outputs) + 1], sv))]
   /\ call' = call
 SetSkip ==
-  /\ Skips /\ call = C0 /\ d.kind = "popular"
+  /\ Skips /\ NoArgs(call) /\ d.kind = "popular"
   /\ \/ ~d.skipInputs /\ d' = [d EXCEPT !.skipInputs = TRUE]
      \/ ~d.skipOutputs /\ d' = [d EXCEPT !.skipOutputs = TRUE]
   /\ call' = call
@@ -378,7 +434,8 @@ SecretDerivationsAgree == d.kind \in Kinds => SecretDerivationsOK
 DeriveReport == d.kind \in Kinds => PrintT(<<"DEVIATING", DeviatingJson>>)
 \* the code (as transcribed) reports exactly what the property demands, on every real path
 CodeMatchesProperty ==
-  \A p \in PathsOf(d.kind) : IF KnownDeviation(p, d, call) THEN TRUE ELSE Op(p, d, call) = Expected(Iface(d), call)
+  \A p \in PathsOf(d.kind) : IF KnownDeviation(p, d, call) THEN TRUE
+                            ELSE Op(p, d, call) \ Unspecified(Iface(d), call) = Expected(Iface(d), call)
 \* the file derivation used alone or inside a multi-file run is the same function
 FilePathsAgree == d.kind = "workflow" => Op("file", d, call) = Op("file2", d, call)
 \* Expected is well defined: names of one class are distinct spellings of distinct ids
@@ -390,6 +447,23 @@ ExpectedWellFormed ==
   /\ call.inherit => \A x \in e : x.class \notin {"undefined-secret", "missing-required-secret"}
   /\ d.skipInputs => \A x \in e : x.class \notin {"undefined-input", "missing-required-input"}
   /\ d.skipOutputs => \A x \in e : x.class # "undefined-output"
+  /\ e \cap Unspecified(Iface(d), call) = {}
+\* every spelling of `uses:` that denotes the directory of the local action gives the same verdicts
+UsesInsensitive ==
+  d.kind = "action" =>
+    \A f \in FormsFor(d.loc) : /\ Expected(Iface(d), [call EXCEPT !.uses = f]) = Expected(Iface(d), call)
+                               /\ Op("local", d, [call EXCEPT !.uses = f]) = Op("local", d, call)
+\* the scalar style of a literal value does not change the verdicts (judged on the unambiguous
+\* classes: the unspecified diagnostics are left out)
+Restyle(vk, st) == IF vk \in LitNames THEN st \o ":" \o LitOf(vk).cls ELSE vk
+StyleInsensitive ==
+  d.kind = "workflow" =>
+    \A st \in LitStyles :
+      LET c2 == [call EXCEPT !.valueTypes = [k \in DOMAIN call.valueTypes |-> Restyle(call.valueTypes[k], st)]] IN
+      /\ Expected(Iface(d), c2) = Expected(Iface(d), call)
+      /\ Unspecified(Iface(d), c2) = Unspecified(Iface(d), call)
+      /\ Op("file", d, c2) \ Unspecified(Iface(d), call) = Op("file", d, call) \ Unspecified(Iface(d), call)
+      /\ Op("ast", d, c2) \ Unspecified(Iface(d), call) = Op("ast", d, call) \ Unspecified(Iface(d), call)
 \* a bundled interface seen through Iface/MetaOfIface is judged like the declaration it was generated from
 TableViewAgrees ==
   d.kind = "popular" =>
